@@ -241,6 +241,7 @@ func RunC10(env *Env, rep *Report) {
 		}
 		cases = append(cases, c10Case([][]string{a, a}, true, ""))
 	}
+	cases = append(cases, c10PoryswitchCase(true), c10PoryswitchCase(false))
 	rep.Technique = "symbolic execution of the real command parser and renderer (go/ssa) with symbolic token literals; rope equalities between output lines and the token-wise reference, aliasing with constant names decided by the solver (z3)"
 	rep.Explanation = "Bounded symbolic verification, not a proof. Every argument token list up to the length bound over {identifier, number, keyword, operator, '(', ')', ','} with balanced parentheses and non-empty arguments (plus the no-parenthesis form, empty parentheses, several commands in a row and the label look-alikes) is compiled by symbolic execution of the real code with all identifier and number tokens symbolic. Each output line must equal, as a rope and hence for every name and number, the reference rendering: tab, the unchanged command name, the argument tokens in order joined by single spaces with ', ' at every comma; lines in source order. With a constant defined, whether an identifier token equals the constant's name is a solver-decided fork (every aliasing pattern is explored) and the reference substitutes the constant's value exactly there."
 	rep.Bounds = map[string]interface{}{"max_tokens_per_argument_list": maxTok, "token_lists": len(lists), "cases": len(cases), "const_aliasing": "lists of up to 3 tokens with one constant definition", "commands_in_a_row": "up to 3, lists of up to 2 tokens"}
@@ -266,4 +267,42 @@ func RunC10(env *Env, rep *Report) {
 		return cs
 	})
 	env.RunJobs(len(cases), rep, func(w *Worker, i int) { w.RunCase(cases[i], rep) })
+}
+
+// c10PoryswitchCase: commands with inline text / moves() inside a poryswitch
+// case (selected by name, or the '_' fallback) reach the output with their
+// label arguments.
+func c10PoryswitchCase(fallback bool) *Case {
+	atoms := &AtomTable{Coded: true}
+	sname := atoms.New(ClsUserName, "script", "names")
+	key := atoms.New(ClsIdent, "swkey", "")
+	val := atoms.New(ClsIdent, "swval", "swvals", "_")
+	other := atoms.New(ClsIdent, "swother", "swvals", "_")
+	c1, c2, c3 := atoms.New(ClsPlainCmd, "cmd", "cmds"), atoms.New(ClsPlainCmd, "cmd", "cmds"), atoms.New(ClsPlainCmd, "cmd", "cmds")
+	arg := atoms.New(ClsIdent, "arg", "")
+	named := val
+	if fallback {
+		named = other
+	}
+	src := fmt.Sprintf("script %s {\n  poryswitch(%s) {\n    %s: %s(\"named$\", %s)\n    _ {\n      %s(%s, \"fallback$\")\n      %s(moves(walk_up))\n    }\n  }\n}",
+		sname.Placeholder(), key.Placeholder(), named.Placeholder(), c1.Placeholder(), arg.Placeholder(), c2.Placeholder(), arg.Placeholder(), c3.Placeholder())
+	prog := &Program{Atoms: atoms, Tops: []interface{}{&TopRaw{Text: src}}}
+	variants := []Variant{{Name: "opt", Opt: CompileOpts{Optimize: true, SwKeys: []Tok{A(key)}, SwVals: []Tok{A(val)}}}}
+	cs := &Case{Name: fmt.Sprintf("c10/poryswitch/fallback=%v", fallback), Prog: prog, Variants: variants, NonTrivial: true, Shape: c10Shape{Cmds: []string{"poryswitch"}}, MaxPaths: 64}
+	cs.Oracle = func(x *OracleCtx) *Violation {
+		res := x.Res["opt"]
+		if res.Err.IsErr || res.Err.Panic != "" {
+			return &Violation{Sub: "verbatim", Msg: "rejected: " + interp.ToString(res.Err.Msg) + res.Err.Panic}
+		}
+		lbl := func(suffix string) interp.Value { return cat(sname.Val, suffix) }
+		var want []interp.Value
+		if fallback {
+			want = []interp.Value{cat(sname.Val, "::"), cat("\t", c2.Val, " ", arg.Val, ", ", lbl("_Text_0")), cat("\t", c3.Val, " ", lbl("_Movement_0")), "\treturn",
+				cat(lbl("_Movement_0"), ":"), "\twalk_up", "\tstep_end", cat(lbl("_Text_0"), ":"), "\t.string \"fallback$\""}
+		} else {
+			want = []interp.Value{cat(sname.Val, "::"), cat("\t", c1.Val, " ", lbl("_Text_0"), ", ", arg.Val), "\treturn", cat(lbl("_Text_0"), ":"), "\t.string \"named$\""}
+		}
+		return expectLines(x, "verbatim", "output", nonBlank(outputLines(res.Out, false)), want)
+	}
+	return cs
 }
